@@ -709,6 +709,60 @@ func exprString(e ast.Expr) string {
 	return "?"
 }
 
+// skeleton of a function body: string/int constants, calls, control keywords, in source order.
+// It is what the hand-written model of that function is checked against (a `decide` obligation
+// in Lean): an edit that changes a literal, a callee, a branch or a loop changes the skeleton.
+func skeleton(p *packages.Package, fd *ast.FuncDecl) []string {
+	var out []string
+	if fd == nil || fd.Body == nil {
+		return []string{"<missing>"}
+	}
+	ast.Inspect(fd.Body, func(x ast.Node) bool {
+		switch v := x.(type) {
+		case *ast.BasicLit:
+			out = append(out, "lit:"+v.Value)
+		case *ast.Ident:
+			if c, ok := p.TypesInfo.Uses[v].(*types.Const); ok && c.Pkg() != nil {
+				out = append(out, "const:"+c.Name()+"="+c.Val().ExactString())
+			}
+		case *ast.CallExpr:
+			out = append(out, "call:"+exprString(v.Fun))
+		case *ast.IfStmt:
+			out = append(out, "if")
+		case *ast.ForStmt, *ast.RangeStmt:
+			out = append(out, "for")
+		case *ast.SwitchStmt, *ast.TypeSwitchStmt:
+			out = append(out, "switch")
+		case *ast.CaseClause:
+			if v.List == nil {
+				out = append(out, "default")
+			} else {
+				out = append(out, "case")
+			}
+		case *ast.ReturnStmt:
+			out = append(out, "return")
+		case *ast.DeferStmt:
+			out = append(out, "defer")
+		case *ast.GoStmt:
+			out = append(out, "go")
+		case *ast.BranchStmt:
+			out = append(out, v.Tok.String())
+		case *ast.BinaryExpr:
+			out = append(out, "op:"+v.Op.String())
+		case *ast.UnaryExpr:
+			out = append(out, "op:"+v.Op.String())
+		case *ast.AssignStmt:
+			for _, l := range v.Lhs {
+				out = append(out, "set:"+exprString(l))
+			}
+		case *ast.IncDecStmt:
+			out = append(out, "set:"+exprString(v.X))
+		}
+		return true
+	})
+	return out
+}
+
 // ---------------------------------------------------------------------------------------------
 // switch tables
 
@@ -1286,6 +1340,8 @@ func main() {
 		{unser, "CDX", "componentTypeToPurpose", "cdxPurposeIn", 0},
 		{unser, "CDX", "cdxHashAlgoToProtobomAlgo", "cdxHashIn", 0},
 		{unser, "CDX", "cdxExtRefTypeToProtobomType", "cdxExtRefTypeIn", 0},
+		{pkgs["formats"], "Sniffer", "SniffReader", "sniffCdxVersion", 0},
+		{pkgs["formats"], "Sniffer", "SniffReader", "sniffSpdxVersion", 1},
 	}
 	var tb strings.Builder
 	tb.WriteString(header)
@@ -1298,6 +1354,85 @@ func main() {
 	}
 	tb.WriteString("end Protobom.Gen.Tables\n")
 	writeIfChanged(filepath.Join(*out, "Tables.lean"), tb.String())
+
+	// ---------------- formats: constants and registrations
+	var fm strings.Builder
+	fm.WriteString(header)
+	fm.WriteString("namespace Protobom.Gen.Formats\n\n")
+	{
+		fp := pkgs["formats"]
+		var consts []string
+		scope := fp.Types.Scope()
+		names := scope.Names()
+		sort.Strings(names)
+		for _, n := range names {
+			if c, ok := scope.Lookup(n).(*types.Const); ok && c.Val().Kind() == constant.String {
+				consts = append(consts, fmt.Sprintf("(%s, %s)", leanStr(n), leanStr(constant.StringVal(c.Val()))))
+			}
+		}
+		fmt.Fprintf(&fm, "/-- string constants of pkg/formats -/\ndef consts : List (String × String) := %s\n\n", leanList(consts))
+		reg := func(p *packages.Package, fname string) []string {
+			var out []string
+			fd := findFunc(p, "", fname)
+			if fd == nil {
+				return []string{leanStr("<missing " + fname + ">")}
+			}
+			ast.Inspect(fd.Body, func(n ast.Node) bool {
+				switch v := n.(type) {
+				case *ast.AssignStmt:
+					for _, l := range v.Lhs {
+						if ix, ok := l.(*ast.IndexExpr); ok {
+							if c, ok := constOf(p, ix.Index); ok {
+								out = append(out, renderConst(c))
+							}
+						}
+					}
+				case *ast.CallExpr:
+					if se, ok := v.Fun.(*ast.SelectorExpr); ok && se.Sel.Name == "Store" && len(v.Args) == 2 {
+						if c, ok := constOf(p, v.Args[0]); ok {
+							out = append(out, renderConst(c))
+						}
+					}
+				}
+				return true
+			})
+			return out
+		}
+		fmt.Fprintf(&fm, "/-- formats registered by reader.init -/\ndef readerFormats : List String := %s\n\n", leanList(reg(pkgs["reader"], "init")))
+		fmt.Fprintf(&fm, "/-- formats registered by writer.ensureSerializersInitialized -/\ndef writerFormats : List String := %s\n\n", leanList(reg(pkgs["writer"], "ensureSerializersInitialized")))
+	}
+	fm.WriteString("end Protobom.Gen.Formats\n")
+	writeIfChanged(filepath.Join(*out, "Formats.lean"), fm.String())
+
+	// ---------------- skeletons of hand-modelled functions
+	var sk strings.Builder
+	sk.WriteString(header)
+	sk.WriteString("namespace Protobom.Gen.Skel\n\n")
+	for _, sp := range []struct {
+		p          *packages.Package
+		recv, name string
+	}{
+		{pkgs["formats"], "Sniffer", "SniffReader"},
+		{pkgs["formats"], "Sniffer", "sniff"},
+		{pkgs["formats"], "spdxSniff", "sniff"},
+		{pkgs["formats"], "cdxSniff", "sniff"},
+		{pkgs["formats"], "sniffState", "Format"},
+		{pkgs["formats"], "Format", "Version"},
+		{pkgs["formats"], "Format", "Major"},
+		{pkgs["formats"], "Format", "Minor"},
+		{pkgs["formats"], "Format", "Encoding"},
+		{pkgs["formats"], "Format", "Type"},
+	} {
+		fd := findFunc(sp.p, sp.recv, sp.name)
+		items := skeleton(sp.p, fd)
+		var li []string
+		for _, it := range items {
+			li = append(li, leanStr(it))
+		}
+		fmt.Fprintf(&sk, "def %s_%s_%s : List String := %s\n\n", sp.p.Name, sp.recv, sp.name, leanList(li))
+	}
+	sk.WriteString("end Protobom.Gen.Skel\n")
+	writeIfChanged(filepath.Join(*out, "Skel.lean"), sk.String())
 
 	// ---------------- access records
 	var ac strings.Builder
